@@ -438,6 +438,12 @@ func run(c *core.Ctx) {
 		}
 		t0, _, _, _ := execute(sc, nil)
 		b := bound(c.Tier, sc, len(t0))
+		if sc.Kind == "pipelines" {
+			if sc.Threads[0][0] == 1 && b == 0 {
+				b = 1 // the small independent sets: every single preemption, whatever their length
+			}
+			c.Note("pipelines over schema %d, %d goroutines: %d scheduling points in the default schedule, preemption bound %d", sc.Threads[0][0], len(sc.Threads), len(t0), b)
+		}
 		c.OutcomeN(fmt.Sprintf("scenarios-explored-to-preemption-bound-%d", b), 1)
 		outcomes := map[string]bool{}
 		var rec func(prefix []int, preempt int)
